@@ -627,10 +627,13 @@ class Gen(object):
             if pair and not bad and zero_init and By > 1:
                 self.samples(pair, "matmul_bw", [a, b, y, gy, ga, gb], [], "bw", By, "exact", grads=[(4, ba), (5, bb)])
 
-    def conv2d(self, boundary=False):
+    def conv2d(self, boundary=False, batched=False):
         rng = self.rng
         H, Wd, C = rng.choice([1, 2, 3, 4, 5]), rng.choice([1, 2, 3, 4, 5]), rng.choice([1, 1, 2, 3])
         KH, KW, OC = rng.choice([1, 2, 3]), rng.choice([1, 2, 3]), rng.choice([1, 1, 2, 3])
+        if batched:
+            # minibatch-law cases: a batched filter with several output channels, non-square filters
+            OC, C = rng.choice([2, 3]), rng.choice([1, 2])
         p0, p1 = rng.choice([0, 0, 1, 2]), rng.choice([0, 0, 1, 2])
         s0, s1 = rng.choice([1, 1, 2, 3]), rng.choice([1, 1, 2, 3])
         d0, d1 = rng.choice([1, 1, 2]), rng.choice([1, 1, 2, 3])
@@ -648,6 +651,9 @@ class Gen(object):
                 p0 = big
                 s0 = rng.choice([big, 2 ** 32 - 1, 2 ** 31])
         (bx, bw), B = batches(rng, 2)
+        if batched:
+            B = rng.choice([2, 3])
+            bx, bw = rng.choice([(1, B), (B, B), (B, 1)])
         x = rtensor(rng, trim([H, Wd, C]), bx, "int", -3, 3)
         w = rtensor(rng, trim([KH, KW, C, OC]), bw, "int", -2, 2)
         r = rng.random()
@@ -665,7 +671,7 @@ class Gen(object):
         By = max(bx, bw)
         if rng.random() < 0.55 or sp is None or boundary:
             pair = self.emit("conv2d_fw %s %s %s" % (x.tok(), w.tok(), args), "exact", "fw", spec=sp)
-            if pair and sp is not None and By > 1 and rng.random() < 0.6 and not boundary:
+            if pair and sp is not None and By > 1 and (batched or rng.random() < 0.6) and not boundary:
                 self.samples(pair, "conv2d_fw", [x, w], args, "fw", By, "exact")
         else:
             y = rtensor(rng, sp.dims, By, "int", -2, 2)
@@ -840,6 +846,8 @@ def streams(rng, tier):
     for i in range(12 if tier == "quick" else 200):
         g.conv2d(boundary=True)
         g.pool(boundary=True)
+    for i in range(24 if tier == "quick" else 300):
+        g.conv2d(batched=True)
     for i in range(12 if tier == "quick" else 60):
         g.malformed()
     return g.lines, g.meta
